@@ -16,13 +16,13 @@ CLAIMS = {
             'Bounds: <=4-6 local writes interleaved with a remote chain of 4-6 entries.', '6 C19'),
     'C20': ('tla-transport', 'spec/Transport.tla (membership diff, message delivery, framing) model-checked; snapshot sequences (lists with duplicates) and interleaved publishes fed to the real pubsubcoreapi adapter through a scripted PubSubAPI with gated polls; pairwise channel over the same API (name symmetry for random peer ids, attribution, own messages); frames 0, 1, limit-1, limit, limit+1 and malformed frames over real libp2p streams (mocknet).',
             'pubsubraw (gossipsub timing) is not driven; byte-exactness is checked on the concrete payloads.', '6 C20'),
-    'C01': ('tla-core', 'spec/Core.tla invariant Convergence model-checked exhaustively on a small configuration; TLC-simulated behaviours (arbitrary stale/duplicate head sets, restarts, final all-to-all sync) replayed on 3 real replicas of each store type with pairwise comparison of replicas holding equal entry sets; recorded implementation traces validated against spec/CoreTrace.tla.',
+    'C01': ('tla-core', 'spec/Core.tla invariant Convergence model-checked exhaustively on a small configuration; TLC-simulated behaviours (arbitrary stale/duplicate head sets, restarts, final all-to-all sync) replayed on 3 real replicas of each store type with pairwise comparison of replicas holding equal entry sets; a copy of every replica that loads only a suffix of its log and then receives the older entries must equal the replica; recorded implementation traces validated against spec/CoreTrace.tla.',
             'Bounds: 3 replicas, 2 keys x 2 values, <=3 entries exhaustive, <=8 entries simulated.', '6 C01'),
-    'C02': ('tla-system', 'spec/System.tla (writes, cuts, heals, dropped/duplicated/reordered announcements and exchanges, restarts, final phase) model-checked: Converged at rest (safety) and eventual delivery under fairness (liveness); simulated behaviours executed on 2-4 real replicas with every message and notification under driver control, conformance of logs and in-flight message set at every step, then the final phase run to rest in seeded random order and every replica compared with the acknowledged writes.',
+    'C02': ('tla-system', 'spec/System.tla (writes, cuts, heals, dropped/duplicated/reordered announcements and exchanges, restarts, final phase) model-checked: Converged at rest (safety) and eventual delivery under fairness (liveness); simulated behaviours executed on 2-4 real replicas with every message and notification under driver control, conformance of logs and in-flight message set at every step, then the final phase run to rest in seeded random order and every replica compared with the acknowledged writes; TLC counterexamples of five trap properties (spec/SimSystem.tla, spec/SimSystemH.tla with history variables) supply shortest behaviours in which one particular mechanism (local heads, relay, heads after restart, a repeated exchange after loss or after a receiver restart) has to deliver an entry.',
             'Bounds: 2 replicas exhaustive (2-3 writes, 2 faults), 2-4 replicas simulated (3 writes, 3 faults). Final phase as in the property: every ordered pair observes the other joining once more.', '6 C02'),
-    'C03': ('tla-auth', 'spec/Auth.tla: admission predicate of the (repaired) access controllers model-checked against Authorised over every constructible entry x route x write list; the pinned predicate is refuted (vacuity guard); every (write list x route x forging class) case realised with real entries built with a second keystore and delivered to a real replica between honest traffic.',
+    'C03': ('tla-auth', 'spec/Auth.tla: admission predicate of the (repaired) access controllers model-checked against Authorised over every constructible entry x route x write list; the pinned predicate is refuted (vacuity guard); every (write list x route x forging class) case realised with real entries built with a second keystore and delivered to a real replica between honest traffic; the replica is stopped, started from its directory and loaded both right after the hostile delivery and at the end, and the hostile entry must still be absent.',
             'Classes: honest, nonwriter, copied-id, copied-identity-block, foreign-key-sig, foreign-type; routes: local, announce, exchange, manual sync, ancestor of a colluding head; lists: explicit, wildcard, empty, creator.', '6 C03'),
-    'C04': ('tla-auth', 'spec/Auth.tla (Genuine: untampered, correctly addressed, this database); every single-field mutation of the wire form of a valid entry (15 fields) delivered as head with the original hash, as head re-hashed, and as ancestor of a colluding head; mutants classified with the library\'s own encoder and verifier.',
+    'C04': ('tla-auth', 'spec/Auth.tla (Genuine: untampered, correctly addressed, this database); every single-field mutation of the wire form of a valid entry (15 fields) delivered as head with the original hash, as head re-hashed, and as ancestor of a colluding head; mutants classified with the library\'s own encoder and verifier; the replica is restarted and loaded after the hostile delivery and after the genuine one: mutant absent, valid entries still there.',
             '15 fields x 3 positions x 1-3 store types; the genuine entry must still be accepted afterwards.', '6 C04'),
     'C05': ('tla-writepath', 'spec/WritePath.tla (writers, replication batches, Crash enabled in every state, Recover) model-checked: Durable, NoPhantom; every forced behaviour\'s recorded effect log is cut at every prefix, a fresh instance is started on exactly that durable state and loaded, and the recovered log is compared with the acknowledgements issued before the cut; clean close/reopen with identity and post-restart write, run both on the simulated cache and with the cache (leveldb) and keystore in a real directory.',
             'Bounds: <=3-4 writers, remote chain of 3, all prefixes of the effect log (10-25 effects per behaviour). Effects are durable once their call returns (assumption of the property).', '6 C05'),
@@ -32,9 +32,9 @@ CLAIMS = {
             'Bounds as C01.', '6 C07'),
     'C08': ('tla-core', 'spec/Core.tla action properties AppendOnly and StableOrder plus invariant OwnOrder model-checked; real event-log listings compared with the specification order after every merge step and checked for removals/reorderings.',
             'Bounds as C01.', '6 C08'),
-    'C09': ('tla-isolation', 'spec/Isolation.tla (every action touches one database) model-checked; interleavings of writes, remote writes, replications and reloads over 2-4 databases of one real instance (default shared bus); observables of every other database compared before/after each step; every published message and store event checked for foreign heads/entries.',
+    'C09': ('tla-isolation', 'spec/Isolation.tla (every action touches one database) model-checked; interleavings of writes, remote writes, replications and reloads over 2-4 databases of one real instance (default shared bus); observables of every other database compared before/after each step; every published message and store event checked for foreign heads/entries; every second behaviour opens all databases with one reused CreateDBOptions value.',
             'Bounds: 2-4 databases (kv, log, doc; explicit and wildcard lists), <=9 operations per behaviour.', '6 C09'),
-    'C10': ('tla-replicator', 'spec/Replicator.tla with refused entries (a non-writer\'s head; an ancestor smuggled in by a valid-looking head) model-checked: NoWedge at rest; TLC behaviours forced on a real store against real hostile entries built with a second keystore, followed by honest re-announcement.',
+    'C10': ('tla-replicator', 'spec/Replicator.tla with refused entries (a non-writer\'s head; an ancestor smuggled in by a valid-looking head) model-checked: NoWedge at rest; TLC behaviours forced on a real store against real hostile entries built with a second keystore, followed by honest re-announcement; a second request table (DAG C) starts with an announcement that lists a valid head before a wrong-hash head (constant Abort: Sync gives the whole announcement up); at the end the replica is stopped, started and loaded and must hold what it held.',
             'Bounds: 5 hashes, 3 requests mixing valid and refused heads at different positions, concurrency 1-2.', '6 C10'),
     'C11': ('tla-replicator', 'spec/Replicator.tla (requests, workers gated before the semaphore / before and after the fetch, Cancel at every step) model-checked for NoWedge/NoHang and bookkeeping invariants; TLC behaviours including the counterexample of the pinned variant forced on a real replicator; then run to rest and the final request issued again.',
             'Bounds: chain with refs plus a fork (4 hashes), 3 requests, <=2 cancels, concurrency 1-2.', '6 C11'),
